@@ -23,11 +23,12 @@ RULE = ('6 base documents x every host (world and each jointed body) x '
         '= some jointless body has pos or quat; distinct = distinct documents')
 ASSUMPTIONS = [
     'MuJoCo compiler and forward kinematics are the reference',
-    'tolerance 5e-6 per nesting level: the loader prints %f (six decimals)',
+    'tolerance 1e-5 per nesting level: the loader prints %f (six decimals of '
+    'pos and quat; rotation rounding acts through lever arms)',
     'from-to geoms are compared by end points and axis only (MuJoCo chooses '
     'the roll about the axis freely)',
 ]
-TOL = 5e-6
+TOL = 1e-5   # per nesting level: six printed decimals on pos and quat, lever arms < 2 m
 
 
 def _f(v):
